@@ -51,7 +51,7 @@ func checkC03(c *Ctx) *core.Result {
 	if len(r.Violations) > 0 {
 		return r
 	}
-	fpV := t.ClassConsts["sqliTokenTypeFingerprint"]
+	fpV := byte(classFingerprint)
 
 	// ---- R-fp: calibrated fingerprints are still black-listed
 	raw, err := os.ReadFile(filepath.Join(c.VerifDir, "baseline", "required_fingerprints.json"))
@@ -207,7 +207,7 @@ func checkC03(c *Ctx) *core.Result {
 	// the fingerprint of every attack that uses it as separator
 	if env := newE3Env(c, r); len(r.Violations) == 0 {
 		sr := &sqlRoots{env: env}
-		comment, _ := p.ConstInt("sqliTokenTypeComment")
+		comment := int64(classComment)
 		dashLexer := ""
 		if f := disp.Table['-']; f != nil {
 			dashLexer = "lexer:" + f.Name()
